@@ -253,6 +253,8 @@ class Backend(ABC):
             if (
                 not hasattr(self, "last_processing_pipeline")
                 or self.last_processing_pipeline is None
+                or self.last_processing_pipeline.vars.get("output_format")
+                != (output_format or self.default_format)
             ):
                 self.init_processing_pipeline(output_format)
 
